@@ -140,7 +140,7 @@ def check_finger_store(ctx, entry, I, res, e, fn, o, where, axioms, rules=None):
 
 def creator_or_exclusive(I, e):
     """store happens in a function that holds the arena exclusively (&mut self), e.g. reset"""
-    body = I.bodies.get(e.stack[-1][0])
+    body = I.bodies.get(arena.owner_fn(I, e))
     ins = (body or {}).get('meta', {}).get('inputs') or []
     return bool(ins) and ins[0].startswith('&mut ')
 
